@@ -99,10 +99,14 @@ def scope_programs(draw, tier, fail=2, volatile=2, until=3, late_spawn=2, priv=1
             k = draw(st.integers(0, 9))
             if k < 6 or not nflags:
                 blk['notif'] = ['delay', draw(st.sampled_from([0.5, 1, 1, 2, 3, 4]))]
-            elif k < 9:
+            elif k < 8:
                 blk['notif'] = ['flag', draw(st.integers(0, nflags - 1))]
-            else:
+            elif k < 9:
                 blk['notif'] = ['time_ge', 'T+%s' % draw(st.sampled_from([1, 2, 3]))]
+            else:
+                # notifications that never fire (a passed moment, eternity) or hold already on entry
+                blk['notif'] = draw(st.sampled_from([['time_eq', -1], ['eternity'], ['time_eq', -1], ['eternity'],
+                                                     ['time_ge', -1], ['time_lt', 1000], ['instant']]))
         for _ in range(draw(st.integers(0, 4 if big else 3))):
             cn = nm.act()
             targets.append(cn)
